@@ -33,6 +33,25 @@ pub struct Subscription {
     observer: Arc<SubscriptionObserver>,
 }
 
+/// Notifies the next consumer waiting for messages when dropped,
+/// unless it has been disarmed.
+struct WakeNextOnDrop<'a>(Option<&'a SubscriptionObserver>);
+
+impl WakeNextOnDrop<'_> {
+    /// The wake-up has been acted upon; nothing to pass on.
+    fn disarm(mut self) {
+        self.0 = None;
+    }
+}
+
+impl Drop for WakeNextOnDrop<'_> {
+    fn drop(&mut self) {
+        if let Some(observer) = self.0 {
+            observer.notify_new_messages_available();
+        }
+    }
+}
+
 /// Information about a subscription.
 #[derive(Debug, Clone)]
 pub struct SubscriptionInfo {
@@ -125,6 +144,12 @@ impl Subscription {
         max_count: u16,
     ) -> Result<Vec<PulledMessage>, PullMessagesError> {
         let (responder, recv) = oneshot::channel();
+
+        // The caller may have been woken up by the "messages available" signal
+        // in order to make this pull. If it goes away while waiting for room in
+        // the mailbox, pass the wake-up on so that another waiting consumer
+        // pulls instead; a surplus wake-up only costs an empty pull.
+        let wake_next = WakeNextOnDrop(Some(&self.observer));
         self.sender
             .send(SubscriptionRequest::PullMessages {
                 max_count,
@@ -132,6 +157,7 @@ impl Subscription {
             })
             .await
             .map_err(|_| PullMessagesError::Closed)?;
+        wake_next.disarm();
         recv.await.map_err(|_| PullMessagesError::Closed)?
     }
 
